@@ -241,6 +241,15 @@ def b_addci(parent, cfg, mk):
 
 add('AddCarryIn', 'C07', b_addci, lambda c, v: [v[0] + v[1] + v[2]],
     [t for t in TRIP_Q if t[2] >= t[0]], [t for t in TRIP_T if t[2] >= t[0]])
+def b_subbi(parent, cfg, mk):
+    a, b, r = cfg
+    A = mk('a', a); B = mk('b', b); R = mk('r', r); BI = mk('bi', 1)
+    P().SubBorrowIn(parent, 'd', A, B, R, BI)
+    return [A, B, BI], [R]
+
+
+add('SubBorrowIn', 'C07', b_subbi, lambda c, v: [v[0] - v[1] - v[2]],
+    [t for t in TRIP_Q if t[2] >= t[0]], [t for t in TRIP_T if t[2] >= t[0]])
 add('Sub', 'C07', _two('Sub'), lambda c, v: [v[0] - v[1]], TRIP_Q, TRIP_T)
 add('Mul', 'C07', _two('Mul'), lambda c, v: [v[0] * v[1]], TRIP_Q, TRIP_T)
 add('SignedMul', 'C07', _two('SignedMul'), lambda c, v: [sgn(v[0], c[0]) * sgn(v[1], c[1])], TRIP_Q, TRIP_T)
@@ -805,7 +814,7 @@ def extend(names, cfgs, quick=True):
 
 
 _TW = [(65, 65, 65), (100, 100, 100), (100, 64, 128), (72, 72, 144), (64, 100, 100)]
-extend(['Sub', 'Mul', 'SignedMul', 'Div', 'Mod', 'AddCarryIn'], _TW)
+extend(['Sub', 'Mul', 'SignedMul', 'Div', 'Mod', 'AddCarryIn', 'SubBorrowIn'], _TW)
 extend(['SignedAdd', 'SignedSub'], [t for t in _TW if t[2] >= t[0] and t[2] >= t[1]])
 extend('Add', [(a, b, r, ci, co) for a, b, r in _TW for ci, co in ((0, 0), (1, 1))])
 extend('SignedDiv', [(64, 64, 64), (65, 65, 65), (100, 100, 100), (100, 64, 100)])
